@@ -136,7 +136,8 @@ def radial_spec(g, rkind, n):
         pts = np.concatenate([[0.0], np.cumsum(g.uniform(0.1, 0.8, n - 1))])
         return {"points": pts.tolist(), "weights": g.uniform(0.1, 1.0, n).tolist()}
     if rkind == "tiny":      # shells below, at and just above the 1e-8 switch of integrate_angular_coordinates (centre at the origin)
-        head = [1e-9, 1e-8, 3e-8] if n >= 6 else [1e-9, 1e-8]
+        n = max(n, 7)
+        head = [1e-9, 4e-9, 1e-8, 3e-8] if n >= 8 else [1e-9, 4e-9, 1e-8]
         pts = np.concatenate([head, 0.05 + np.cumsum(g.uniform(0.1, 0.8, n - len(head)))])
         return {"points": pts.tolist(), "weights": g.uniform(0.1, 1.0, n).tolist()}
     if rkind == "becke":     # a real radial grid: Gauss-Legendre through the Becke transform
@@ -154,6 +155,7 @@ def grid_spec(g, method, degkind, rkind, tier, n=None, min_small=None):
     n = int(g.integers(5, 10)) if n is None else n
     spec = {"method": method, "degkind": degkind, "rkind": rkind}
     spec["radial"] = radial_spec(g, rkind, n)
+    n = len(spec["radial"]["points"])
     if degkind == "uniform":
         lo = [d for d in pool if d >= 2] or pool
         d = int(g.choice(lo if min_small is None else [x for x in lo if x >= min_small] or lo))
@@ -763,14 +765,16 @@ def polynomial_contracts(col, g, spec, grid, var, inp, pts):
     def tol_at(P, nu, base):
         """base tolerance plus the rounding noise eps / h^nu of a spline through rounded data with local knot spacing h."""
         r, _ = split_points(P, c)
-        return size * (base + 2e-14 / local_spacing(knots, r) ** nu), r
+        h_min = float(np.min(np.diff(knots)))          # a slope error eps / h_min of one short interval spreads through the C1 conditions
+        return size * (base + 2e-14 / h_min + (2e-14 / local_spacing(knots, r) ** nu if nu else 0.0)), r
 
     def c_values():
         P = np.vstack([gen, axis, centre, grid.points[:: max(1, grid.size // 40)]])
         got = np.asarray(it(P), dtype=float)
         want = poly_eval(ps, P)
-        e, k = worst(got - want, size)
-        if not e <= 1e-9:
+        t, _ = tol_at(P, 0, 1e-9)
+        e, k = worst(got - want, t)
+        if not e <= 1.0:
             return False, f"interpolant at {P[k].tolist()} is {got[k]!r}, the polynomial of degree {band} is {want[k]!r}"
         return True, None
     col.check(f"polynomial-reproduced:values:{tag}:{var}", c_values, inputs=inp, sample={"grid": var, "polynomial-degree": band})
@@ -831,25 +835,33 @@ def atom_family(col, g, spec, n_func=2):
     has_r0 = bool(np.any(np.asarray(grid.rgrid.points) == 0.0))
     pts = eval_points(g, spec)
     inp["degrees"] = degs.tolist()
-    coordinates_contract(col, spec, grid, var, inp)
-    brute_contracts(col, g, spec, grid, var, inp)
+
+    def guarded(cid, fn, *args, **kw):
+        """an exception raised while a contract is being prepared (library calls outside a check) is a failure, not a crash."""
+        try:
+            fn(*args, **kw)
+        except Exception as e:  # noqa: BLE001
+            col.case(f"{cid}:{var}", False, f"{type(e).__name__}: {e} (raised while preparing the contract)", inputs=inp)
+    guarded("convert_cartesian_to_spherical", coordinates_contract, col, spec, grid, var, inp)
+    guarded("integrate_angular_coordinates:arbitrary-values", brute_contracts, col, g, spec, grid, var, inp)
     for k in range(n_func):
         fs = func_spec(g, band, vanish_at_origin=True)
         fin = dict(inp, function=fs)
         fvals = eval_function(fs, grid)
         tag = f"band{band}" if band < L_CAP or int(degs.min()) // 2 == L_CAP else f"band{band}-below-limit"
-        angular_contracts(col, g, spec, grid, fs, fvals, tag, var, fin)
-        spline_contracts(col, g, spec, grid, fs, fvals, tag, var, fin)
+        guarded(f"integrate_angular_coordinates:{tag}", angular_contracts, col, g, spec, grid, fs, fvals, tag, var, fin)
+        guarded(f"radial_component_splines:knots:{tag}", spline_contracts, col, g, spec, grid, fs, fvals, tag, var, fin)
         if k == 0:
-            interpolant_contracts(col, g, spec, grid, fvals, tag, var, fin, pts)
+            guarded(f"interpolate:values:generic-points:{tag}", interpolant_contracts, col, g, spec, grid, fvals, tag, var, fin, pts)
     if has_r0:
         # radial factors that do not vanish at the node r = 0: values on that shell follow the documented canonical angles
         fs = func_spec(g, band, vanish_at_origin=False)
         fin = dict(inp, function=fs, directional_r0=True)
         fvals = eval_function(fs, grid, directional_r0=True)
-        angular_contracts(col, g, spec, grid, fs, fvals, f"band{band}-directional-at-r0", var, fin)
-        spline_contracts(col, g, spec, grid, fs, fvals, f"band{band}-directional-at-r0", var, fin, directional=True)
-    polynomial_contracts(col, g, spec, grid, var, inp, pts)
+        tag = f"band{band}-directional-at-r0"
+        guarded(f"integrate_angular_coordinates:{tag}", angular_contracts, col, g, spec, grid, fs, fvals, tag, var, fin)
+        guarded(f"radial_component_splines:knots:{tag}", spline_contracts, col, g, spec, grid, fs, fvals, tag, var, fin, directional=True)
+    guarded("polynomial-reproduced:values", polynomial_contracts, col, g, spec, grid, var, inp, pts)
 
 
 # ----------------------------------------------------------------------------------------------------------------------
@@ -1059,6 +1071,14 @@ RKINDS = ["positive", "r0node", "tiny", "becke", "cc-r0"]
 DEGKINDS = ["uniform", "mixed", "pruned", "sizes"]
 
 
+def safe(col, label, fn, *args, **kw):
+    """never let an exception escape: a crash of the driver decides nothing, a failed case does."""
+    try:
+        fn(*args, **kw)
+    except Exception as e:  # noqa: BLE001
+        col.case(f"{label}:raised", False, f"{type(e).__name__}: {e} (raised outside a contract evaluation)", inputs={"label": label})
+
+
 def family(col, g, tier, only=None):
     combos = []
     for mi, method in enumerate(METHODS):
@@ -1074,7 +1094,8 @@ def family(col, g, tier, only=None):
         for method, degkind, rkind in combos:
             if only and not any(o in (method, degkind, rkind) for o in only):
                 continue
-            atom_family(col, g, grid_spec(g, method, degkind, rkind, tier), n_func=2 if tier == "quick" else 3)
+            spec = grid_spec(g, method, degkind, rkind, tier)
+            safe(col, f"atomic-grid-contracts:{variant(spec)}", atom_family, col, g, spec, n_func=2 if tier == "quick" else 3)
 
 
 def run(tier, seed, *rest):
@@ -1083,9 +1104,9 @@ def run(tier, seed, *rest):
     oracle_selfcheck(col, g)
     family(col, g, tier)
     for k in range(6 if tier == "quick" else 24):
-        mol_family(col, g, tier, k)
+        safe(col, "MolGrid.interpolate", mol_family, col, g, tier, k)
     for _ in range(1 if tier == "quick" else 4):
-        state_contract(col, g, tier)
+        safe(col, "repeated-use-of-one-grid", state_contract, col, g, tier)
     return col.result()
 
 
@@ -1101,14 +1122,14 @@ def replay(req):
     g = rng(req.get("seed", 0), "C09-replay")
     if "molgrid" in text or "molecul" in text:
         for k in range(9):
-            mol_family(col, g, "quick", k)
+            safe(col, "MolGrid.interpolate", mol_family, col, g, "quick", k)
     else:
         only = [m for m in METHODS if m in text] or None
         family(col, g, "quick", only=only)
-        state_contract(col, g, "quick")
+        safe(col, "repeated-use-of-one-grid", state_contract, col, g, "quick")
         if "interpolate" not in text and "spline" not in text and "angular" not in text and "average" not in text:
             for k in range(6):
-                mol_family(col, g, "quick", k)
+                safe(col, "MolGrid.interpolate", mol_family, col, g, "quick", k)
     f = _first_unknown(col)
     if f:
         return {"failed": True, "case_id": f["case_id"], "detail": f["detail"], "input": f["input"]}
@@ -1121,7 +1142,7 @@ def replay_case(case):
     inp = case.get("input") or {}
     col = Collector("replay-case")
     if isinstance(inp, dict) and isinstance(inp.get("grid"), dict):
-        atom_family(col, rng(0, "C09-case"), inp["grid"], n_func=2)
+        safe(col, "atomic-grid-contracts", atom_family, col, rng(0, "C09-case"), inp["grid"], n_func=2)
     else:
         out = run("quick", 0)
         col.failures = out["failures"]
